@@ -14,29 +14,42 @@ func (y CheckWhen) CheckContainerPostConstraints(r ChildRequest, s *Selection) (
 		// the condition of a list is about each of its entries, see CheckListPostConstraints
 		return true, nil
 	}
-	return y.check(s, r.Meta)
+	return y.check(s, r.Selection, r.Meta)
 }
 
 func (y CheckWhen) CheckFieldPreConstraints(r *FieldRequest, hnd *ValueHandle) (bool, error) {
-	return y.check(r.Selection, r.Meta)
+	return y.check(r.Selection, r.Selection, r.Meta)
 }
 
 func (y CheckWhen) CheckListPostConstraints(r ListRequest, child *Selection, key []val.Value) (bool, bool, error) {
-	visible, err := y.check(child, r.Meta)
+	var parent *Selection
+	if r.Selection != nil {
+		parent = r.Selection.parent
+	}
+	visible, err := y.check(child, parent, r.Meta)
 	return true, visible, err
 }
 
-func (y CheckWhen) check(s *Selection, m meta.Meta) (bool, error) {
-	if s == nil {
+// s is where a node's own condition is evaluated, parent where a condition it got from a uses
+// or an augment is
+func (y CheckWhen) check(s *Selection, parent *Selection, m meta.Meta) (bool, error) {
+	hw, ok := m.(meta.HasWhen)
+	if !ok {
 		return true, nil
 	}
-	if hw, ok := m.(meta.HasWhen); ok {
-		if hw.When() != nil {
-			xp, err := xpath.Parse(hw.When().Expression())
-			if err != nil {
-				return false, err
-			}
-			proceed, err := s.XPredicate(xp)
+	for w := hw.When(); w != nil; w = w.And() {
+		context := s
+		if w.ParentContext() {
+			context = parent
+		}
+		if context == nil {
+			continue
+		}
+		xp, err := xpath.Parse(w.Expression())
+		if err != nil {
+			return false, err
+		}
+		if proceed, err := context.XPredicate(xp); !proceed || err != nil {
 			return proceed, err
 		}
 	}
